@@ -168,7 +168,13 @@ def sc_ptr(cfg):
             self.tree_ = None
             return self
 
-        with harness.patched(ptr.DecisionTreeRegressor, fit=parent_fit), harness.patched(ptr.PiecewiseTreeRegressor, _fit_reglin=lambda self, X, y, sw: None):
+        f_reglin = C.bool("fail_leaf_regressions")
+
+        def fit_reglin(self, Xa, ya, sw):
+            if f_reglin:  # e.g. weights the tree builder accepts and the per-leaf regressions refuse
+                raise Fault("PiecewiseTreeRegressor._fit_reglin")
+
+        with harness.patched(ptr.DecisionTreeRegressor, fit=parent_fit), harness.patched(ptr.PiecewiseTreeRegressor, _fit_reglin=fit_reglin):
             try:
                 r = est.fit(X, y)
                 C.true(r is est, "fit-returns-self")
@@ -398,13 +404,24 @@ def sc_wrappers(cfg):
             inner = None
             est = km.KMeansL1L2(n_clusters=2, norm="L1", n_init=1, random_state=0, max_iter=3)
             args = (X,)
+            # the caller's weight vector (float64: validation hands back the very same array) is read-only for fit;
+            # non-uniform weights are refused by the L1 code (NotImplementedError) -- a failed fit like any other
+            wmode = C.choice("weights", 3)
+            sw = [None, numpy.full(6, 2.0), numpy.array([1.0, 2.0, 3.0, 1.0, 2.0, 3.0])][wmode]
+            sw0 = None if sw is None else sw.copy()
+            kwargs = dict(sample_weight=sw)
         before = est.get_params(deep=True)
         try:
-            r = est.fit(*args)
+            r = est.fit(*args, **(kwargs if which == "kml1" else {}))
             C.true(r is est, "fit-returns-self")
             ok = True
         except Fault:
             ok = False
+        except NotImplementedError:
+            C.true(which == "kml1" and wmode == 2, "unexpected-exception", detail="NotImplementedError")
+            ok = False
+        if which == "kml1" and sw is not None:
+            C.true(numpy.array_equal(sw, sw0), "KMeansL1L2/caller's-sample_weight-untouched", detail=sw.tolist())
         _params_equal(C, before, est.get_params(deep=True), f"{type(est).__name__}/hyper-parameters-unchanged" + ("" if ok else "-after-a-failed-fit"))
         if inner is not None:
             C.true(not hasattr(inner, "coef_"), f"{type(est).__name__}/the-estimator-parameter-is-never-fitted(clones-are)")
